@@ -290,7 +290,10 @@ structure Sys where
 inductive Op where
   | setKey (f : Feat) (isMax : Bool) (v : Val)   -- `cfg["<f> min|max"] = v`
   | popKey (f : Feat) (isMax : Bool)             -- `cfg.pop("<f> min|max")`
-  | polySet (id : Nat) (p : Poly)                -- create / modify points, axes, inverted
+  | polySet (id : Nat) (p : Poly)                -- create / re-assign points, axes, inverted
+  | polyAxes (id : Nat) (ax ay : Feat)           -- `pf.axes = (…)` alone, in place
+  | polyPoints (id : Nat) (shape : Nat)          -- `pf.points = …` alone, in place
+  | polyInv (id : Nat) (inv : Bool)              -- `pf.inverted = …` alone, in place
   | polyAdd (id : Nat)                           -- `ds.polygon_filter_add(id)`
   | polyRm (id : Nat)                            -- `ds.polygon_filter_rm(id)`
   | setInvalid (b : Bool)
@@ -314,6 +317,10 @@ def cfgStep (cfg : Cfg) (reg : Nat → Poly) (manual : Mask) (op : Op) :
       ({ cfg with ranges := popR cfg.ranges (f, mx) }, reg, manual, .ok)
     else (cfg, reg, manual, .errKey)
   | .polySet id p => (cfg, fun j => if j = id then p else reg j, manual, .ok)
+  | .polyAxes id ax ay =>
+    (cfg, fun j => if j = id then { reg j with ax := ax, ay := ay } else reg j, manual, .ok)
+  | .polyPoints id sh => (cfg, fun j => if j = id then { reg j with shape := sh } else reg j, manual, .ok)
+  | .polyInv id b => (cfg, fun j => if j = id then { reg j with inv := b } else reg j, manual, .ok)
   | .polyAdd id => ({ cfg with polys := cfg.polys ++ [id] }, reg, manual, .ok)
   | .polyRm id =>
     if cfg.polys.contains id then ({ cfg with polys := cfg.polys.erase id }, reg, manual, .ok)
